@@ -52,6 +52,7 @@ def _prepare_files():
     with open(os.path.join(D, "sm.txt"), "w") as f:
         f.write("<http://e/a>@<http://sh/A>\n")
     _FILES["graph"] = g
+    _FILES["empty_graph"] = rdflib.Graph()
 
 
 def kwargs_of(c):
@@ -63,13 +64,17 @@ def kwargs_of(c):
             "url_endpoint": "http://localhost:1/sparql", "rdflib_graph": _FILES["graph"],
             "target_classes": ["http://e/C"], "file_target_classes": os.path.join(D, "tc.txt"),
             "shape_map_file": os.path.join(D, "sm.txt"), "shape_map_raw": "<http://e/a>@<http://sh/A>"}
+    # an argument can be PRESENT with a falsy value (on == 2): "", [] or an empty rdflib graph are not None
+    falsy = {"graph_file_input": "", "graph_list_of_files_input": [], "raw_graph": "", "url_graph_input": "",
+             "list_of_url_input": [], "url_endpoint": "", "rdflib_graph": _FILES["empty_graph"],
+             "target_classes": [], "file_target_classes": "", "shape_map_file": "", "shape_map_raw": ""}
     kw = {}
     for name, on in zip(SRC, srcs):
         if on:
-            kw[name] = vals[name]
+            kw[name] = falsy[name] if on == 2 else vals[name]
     for name, on in zip(TGT, tgts):
         if on:
-            kw[name] = vals[name]
+            kw[name] = falsy[name] if on == 2 else vals[name]
     kw.update(all_classes_mode=acm, input_format=fmt, compression_mode=compr, examples_mode=ex,
               disable_or_statements=dis_or, allow_redundant_or=red_or)
     return kw
@@ -106,12 +111,12 @@ def row_of(c):
 # ---- the property's reference predicate (independent oracle) ----
 def spec_ctor(c):
     (srcs, tgts, acm, fmt, compr, ex, dis_or, red_or) = c
-    if sum(srcs) != 1:
+    if sum(1 for x in srcs if x) != 1:          # present = not None, whatever the value (2 = present and falsy)
         return False
     if acm:
         if tgts[0] or tgts[1] or (tgts[2] and tgts[3]):
             return False
-    elif sum(tgts) != 1:
+    elif sum(1 for x in tgts if x) != 1:
         return False
     if fmt not in ("nt", "tsv_spo", "n3", "turtle", "xml", "json-ld", "turtle_iter"):
         return False
@@ -176,6 +181,22 @@ def enumerate_configs(tier, rnd):
         add((tuple(rnd.random() < 0.25 for _ in range(7)), tuple(rnd.random() < 0.3 for _ in range(4)),
              rnd.random() < 0.5, rnd.choice(FORMATS), rnd.choice(COMPR), rnd.choice(EXAMPLES),
              rnd.random() < 0.5, rnd.random() < 0.5))
+    # (D) arguments that are present but falsy ("", [], an empty rdflib graph): present is "not None".  One present
+    # argument of a base configuration becomes falsy, or one absent argument becomes present-and-falsy (which makes
+    # the configuration contradictory).  shape_map_file = "" is left out of the accepted side: the factory opens it.
+    base = [c for c in cfgs[:4096:7]] + [c for c in cfgs if spec_ctor(c)][:400]
+    for c in base:
+        (srcs, tgts, acm, fmt, compr, ex, dis_or, red_or) = c
+        for i in range(7):
+            # with a shape map the constructor LOADS the source (rdflib): an unreadable "" is an I/O matter, not a
+            # configuration one -- falsy sources only where the constructor does not open them
+            if (srcs[i] or sum(1 for x in srcs if x) == 1) and not (tgts[2] or tgts[3]):
+                s2 = tuple(2 if j == i else x for j, x in enumerate(srcs))
+                add((s2, tgts, acm, fmt, compr, ex, dis_or, red_or))
+        for i in range(4):
+            if i != 2 and (tgts[i] or sum(1 for x in tgts if x) == 1):
+                t2 = tuple(2 if j == i else x for j, x in enumerate(tgts))
+                add((srcs, t2, acm, fmt, compr, ex, dis_or, red_or))
     return cfgs
 
 
